@@ -34,3 +34,12 @@ Definition canon (c : bytes) : bytes :=
 (* the window of the stream that findMarkMac compares with the mark *)
 Definition mark_window (data : bytes) : bytes :=
   take o_mark_len (drop (N.min (blen data) o_max_hs - (o_mark_len + o_mac_len)) data).
+
+(* the same ghost as a function of the history alone (decidable form of validated_live) *)
+Definition vstep (ph : phantom) (id : ident) (acc : bool) (op : rop) : bool :=
+  match op with
+  | Validate ph' id' _ => if (ph' =? ph) && bytes_eqb id' id then true else acc
+  | Expire ph' id' => if (ph' =? ph) && bytes_eqb id' id then false else acc
+  | _ => acc
+  end.
+Definition vlive_b (ops : list rop) (ph : phantom) (id : ident) : bool := fold_left (vstep ph id) ops false.
